@@ -60,7 +60,7 @@ func poolOracle(sc PoolScenario, r *PoolResult) (fs []Finding) {
 		if r.Cuts > 0 && g.Class == "error" {
 			continue // after a connection loss an error outcome is acceptable
 		}
-		if sc.Callers[i].Kind == "gete" && r.ElapsedSec > 0 {
+		if (sc.Callers[i].Kind == "gete" || sc.Callers[i].Kind == "mgete") && r.ElapsedSec > 0 {
 			// remaining lifetime is part of the answer; the explorer let virtual time pass, so the
 			// pool's answer may be lower than the direct one by at most that much
 			for hi := range g.Hits {
@@ -143,6 +143,8 @@ func poolCommands(i int) (cmds []wire.Op, prep []wire.Op) {
 		// binary pipelines: quiet keys closed by a plain get, and all-quiet closed by a no-op
 		{Kind: "mget", Keys: []string{k("h"), k("m"), k("h2"), k("h")}, Quiet: []bool{true, true, true, false}},
 		{Kind: "mget", Keys: []string{k("h2"), k("h"), k("m")}, Quiet: []bool{true, true, true}, NoopEnd: true},
+		// multi-key get-with-expiry (every hit must carry the remaining lifetime)
+		{Kind: "mgete", Keys: []string{k("h"), k("m"), k("h"), k("h2")}},
 	}
 	return
 }
